@@ -4,7 +4,11 @@
     sequential location model ([CorrConc.check_conc]), and with a TTL of
     "forever" the location must have been loaded exactly once, whatever the
     schedule (the clause proved for all schedules of the cache model in
-    [CacheProofs.single_load_with_reuse]). *)
+    [CacheProofs.single_load_with_reuse]).  With a finite TTL ("short") the
+    entry's time is up while the held request still uses the instance: the
+    cache counts its users, so the instance is not replaced
+    ([CacheProofs.in_use_instance_never_replaced]) and the history must be
+    linearizable all the same. *)
 From Verif Require Import Json Outcome CorrConc.
 
 Definition check_syssteer (c : json) : json :=
@@ -19,8 +23,9 @@ Definition check_syssteer (c : json) : json :=
           ("spec_why", JStr "concurrent first requests loaded the location more than once (TTL forever)");
           ("spec_op", JStr "single-load"); ("kf", JArr []);
           ("features", jstrs_of ["multi-load"]); ("nontrivial", JBool true); ("ambiguous", JNum 0)]
-  else if negb (jfB "ok" v) && negb crashed && String.eqb (jfS "ttl" c) "short" then
-    (* D60: with a finite TTL the cache's Pending flag is a boolean, not a count: the release of one of
-       two overlapping requests lets the entry expire while the other still uses the instance *)
-    JObj (("kf", jstrs_of ["D60"]) :: filter (fun kv => negb (String.eqb (fst kv) "kf")) (jO v))
-  else v.
+  else
+    (* D60 (the cache's Pending flag was a boolean: with a finite TTL the release of one of two
+       overlapping requests let the entry expire while the other still used the instance) is repaired:
+       a history that is not linearizable is a plain specification failure, whatever the TTL
+       ([CacheProofs.in_use_instance_never_replaced], all schedules of the cache model) *)
+    v.
